@@ -202,21 +202,28 @@ def check_copy_iteration(check, an: Analysis, rule: str):
         callee = an.callee(SCOPE, name)
         verdict, n_iter, bad, closes = True, 0, None, 0
         skipped = None
+        passes = {}   # loop statement -> [(closes a child?, path, start)]
         for path in an.paths(callee):
             for it in rules.iterations(path):
+                closing = any(
+                    is_call_to(event, '__close__') or (
+                        event.kind in ('call', 'enter')
+                        and isinstance(event.node, ast.Call)
+                        and isinstance(event.node.func, ast.Attribute)
+                        and event.node.func.attr == '__close__')
+                    for _i, event in it.events())
+                passes.setdefault(id(it.node), []).append((closing, path, it.start))
                 if '_children' not in it.source:
                     continue
                 n_iter += 1
-                if name != '_await_children' and skipped is None and not any(
-                        is_call_to(event, '__close__') or (
-                            event.kind in ('call', 'enter')
-                            and isinstance(event.node, ast.Call)
-                            and isinstance(event.node.func, ast.Attribute)
-                            and event.node.func.attr == '__close__')
-                        for _i, event in it.events()):
-                    # a pass of the closing loop that leaves its child alone (a child that
-                    # was spawned but has not run yet must be closed too)
-                    skipped = (path, it.start)
+        if name != '_await_children':
+            for found in passes.values():
+                # a loop that closes children closes one on *every* pass: none is left
+                # alone (a child that was spawned but has not run yet must be closed too)
+                if any(c for c, _p, _s in found):
+                    for closing, path, start in found:
+                        if not closing and skipped is None:
+                            skipped = (path, start)
                 if it.source != attr:
                     continue  # a copy: .copy(), [:], list(...), tuple(...)
                 for index, event in it.events():
